@@ -23,6 +23,8 @@ func main() {
 		filterMain(os.Args[2:])
 	case "range":
 		rangeMain(os.Args[2:])
+	case "codec":
+		codecMain(os.Args[2:])
 	case "schema":
 		schemaMain(os.Args[2:])
 	default:
